@@ -205,23 +205,62 @@ func H_C01_lists() {
 	vAssert("equal", eqZLists(v, got))
 }
 
-// H_C01_maps: maps with 0..2 entries, symbolic keys and values.
+// H_C01_maps: maps with 0..2 entries; one key or one value is symbolic at a time (every value of its type),
+// every iteration order of the encoder is explored; the comparison looks entries up instead of ranging.
 func H_C01_maps() {
 	v := &ZMaps{}
 	n := vChoice("n", 3)
+	symKey := vChoice("symbolic", 2) == 0
 	if vChoice("which", 2) == 0 {
+		keys := []string{"ka", "kb"}
+		vals := []int32{100, -70000}
+		if n > 0 {
+			if symKey {
+				keys[0] = vText("k", 1)
+				vAssume(keys[0] != keys[1])
+			} else {
+				vals[0] = vInt32("v")
+			}
+		}
 		v.M1 = map[string]int32{}
 		for i := 0; i < n; i++ {
-			v.M1[vText("k", 1)] = vInt32("v")
+			v.M1[keys[i]] = vals[i]
 		}
-		vAssume(len(v.M1) == n)
-	} else {
-		v.M2 = map[int32]string{}
+		got := rtZMaps(v)
+		vAssert("m1-size", len(got.M1) == n && len(got.M2) == 0)
+		ok := true
 		for i := 0; i < n; i++ {
-			v.M2[vInt32("k")] = vText("v", 1)
+			x, has := got.M1[keys[i]]
+			ok = vAnd(ok, vAnd(has, x == vals[i]))
 		}
-		vAssume(len(v.M2) == n)
+		vAssert("m1-entries", ok)
+		return
 	}
+	keys := []int32{5, -3000}
+	vals := []string{"va", "vb"}
+	if n > 0 {
+		if symKey {
+			keys[0] = vInt32("k")
+			vAssume(keys[0] != keys[1])
+		} else {
+			vals[0] = vText("v", 1)
+		}
+	}
+	v.M2 = map[int32]string{}
+	for i := 0; i < n; i++ {
+		v.M2[keys[i]] = vals[i]
+	}
+	got := rtZMaps(v)
+	vAssert("m2-size", len(got.M2) == n && len(got.M1) == 0)
+	ok := true
+	for i := 0; i < n; i++ {
+		x, has := got.M2[keys[i]]
+		ok = vAnd(ok, vAnd(has, x == vals[i]))
+	}
+	vAssert("m2-entries", ok)
+}
+
+func rtZMaps(v *ZMaps) *ZMaps {
 	typMap, nameMap := vExtract(v)
 	bs, err := ToBytes(v, nameMap)
 	vAssert("encode-noerr", err == nil)
@@ -229,7 +268,7 @@ func H_C01_maps() {
 	vAssert("decode-noerr", err == nil)
 	got, ok := out.(*ZMaps)
 	vAssert("type", ok)
-	vAssert("equal", vAnd(eqMapSI(v.M1, got.M1), eqMapIS(v.M2, got.M2)))
+	return got
 }
 
 // H_C01_toplevel: top-level scalars come back in their canonical wire type.
@@ -300,4 +339,26 @@ func H_C01_toplevel() {
 		got, ok := out.(int64)
 		vAssert("uint32-as-int64", err == nil && ok && got == int64(x))
 	}
+}
+
+// H_C01_many_classes: 1..19 distinct classes in one message (definition indexes 2, 15, 16, 17, 18 are crossed),
+// with a second instance of an earlier class at the end.
+func H_C01_many_classes() {
+	n := 1 + vChoice("classes", 19)
+	again := []int{0, 2, 15, 16, 17}[vChoice("again", 5)]
+	vAssume(again < n)
+	x := vInt32("x")
+	v := zManyClasses(n, x, again)
+	typMap, nameMap := vExtract(v)
+	bs, err := ToBytes(v, nameMap)
+	vAssert("encode-noerr", err == nil)
+	out, err := ToObject(bs, typMap)
+	vAssert("decode-noerr", err == nil)
+	got, ok := out.([]interface{})
+	vAssert("shape", ok && len(got) == n+1)
+	same := true
+	for i := range v {
+		same = vAnd(same, zClassV(got[i]) == zClassV(v[i]))
+	}
+	vAssert("equal", same)
 }
